@@ -202,11 +202,11 @@ def eval_case(ctx: Ctx, c: dict):
         buf = bytes.fromhex(c["wire"])
         off = c["off"]
         signal.signal(signal.SIGALRM, _alarm)
-        signal.alarm(10)
+        signal.alarm(2)
         try:
             r, v = outcome(lambda: dns.name.from_wire(buf, off), lambda x: f"{enc_labels(x[0].labels)} {x[1]}")
         except Hang:
-            ctx.fail("C01/from_wire/hang", f"from_wire did not terminate in 10 s on {buf.hex()} @ {off}", rep)
+            ctx.fail("C01/from_wire/hang", f"from_wire did not terminate in 2 s on {buf.hex()} @ {off}", rep)
             return
         finally:
             signal.alarm(0)
